@@ -9,7 +9,7 @@ from . import differs, model_inputs, value_differs
 
 class K:
     def __init__(self, name, fn, oracle, kmin=0, floor=None, null_aware=True, two=False, clamp_w=True,
-                 floor_on=None, native=None, pick=None, min_w=1, guard_on=None):
+                 floor_on=None, native=None, pick=None, min_w=1, guard_on=None, needs_cur=False):
         self.name, self.fn, self.oracle, self.kmin = name, fn, oracle, kmin
         self.floor = floor                    # value required when the spread is (numerically) zero: 0, "null", None
         self.null_aware, self.two = null_aware, two
@@ -17,6 +17,7 @@ class K:
         self.native = native or name          # name understood by /verif/replay
         self.pick = pick                      # component of a tuple output
         self.min_w = min_w
+        self.needs_cur = needs_cur            # the statistic is of the *current* element (null when it is null)
         self.guard_on = guard_on              # claims are made only where this quantity is > 0 (e.g. regressor variance)
 
 
@@ -101,6 +102,15 @@ _reg(K("ts_vregx_resid_mean", f"{RRB}::ts_vregx_resid_mean_to",
        _regx(lambda a, b, xs, ys, sq: O.mean(_resid(a, b, xs, ys))), 2, None, True, two=True, guard_on=_var_y))
 
 
+def _o_zscore(xs, sqrt=None, cur=None, **kw):
+    if cur is None:
+        return None
+    return ((O.Q(cur) - O.mean(xs)) / O.Q(O.o_std(xs, sqrt=sqrt))).f
+
+
+_reg(K("ts_vzscore", "RollingValidNorm::ts_vzscore_to", _o_zscore, 2, "null", True, floor_on=_var_of_x, needs_cur=True))
+
+
 def _resid_var(ys, xs):
     a, b = O.ols(xs, ys)
     return O.pop_var(_resid(a, b, xs, ys))
@@ -132,7 +142,7 @@ class ShapeResult:
         self.unknown = []
 
 
-def check_shape(E, k, L, w, mp, mask, mask2=None, mode="f64", eps=None):
+def check_shape(E, k, L, w, mp, mask, mask2=None, mode="f64", eps=None, flags_only=False, positions=None):
     """All positions of kernel k on one (L, w, mp, mask[, mask2]) shape. Returns ShapeResult."""
     res = ShapeResult()
     pre = None
@@ -170,6 +180,8 @@ def check_shape(E, k, L, w, mp, mask, mask2=None, mode="f64", eps=None):
         out = r.outputs[i]
         if out is None:
             break          # the callback panics here on every path; already reported through its obligation
+        if positions is not None and i not in positions:
+            continue
         if k.pick is not None:
             out = out.items[k.pick]
         if k.two:
@@ -187,7 +199,10 @@ def check_shape(E, k, L, w, mp, mask, mask2=None, mode="f64", eps=None):
         if n < need:
             cases.append(([], None))
         else:
-            ref = k.oracle(wx, wy, sqrt=sq, window=w) if k.two else k.oracle(wx, sqrt=sq, window=w)
+            cur = (xs[i] if mask[i] else None) if k.needs_cur else None
+            ref = k.oracle(wx, wy, sqrt=sq, window=w) if k.two else k.oracle(wx, sqrt=sq, window=w, cur=cur)
+            if k.needs_cur and cur is None:
+                ref = None
             if isinstance(ref, str):       # "undefined": statement does not constrain this position
                 continue
             if ref == "skip":
@@ -210,6 +225,8 @@ def check_shape(E, k, L, w, mp, mask, mask2=None, mode="f64", eps=None):
             extra = extra + guard
             if ref is None:
                 qs = [(smt.not_(out.nan), "output is non-null where null is required")]
+            elif flags_only:
+                qs = [(smt.ne(out.nan, ref.nan), "null flag differs from the definition (null exactly when undefined)")]
             else:
                 qs = [(smt.ne(out.nan, ref.nan), "null flag differs from the definition (null exactly when undefined)"),
                       (smt.and_(smt.not_(ref.nan), smt.not_(out.nan),
